@@ -666,8 +666,10 @@ FirstFeasibleIfMonotone ==
      \A i \in AllowedIdx(1) : (<<PhysKey(<<1, i>>), "max">> \in DOMAIN memo /\ memo[<<PhysKey(<<1, i>>), "max">>] < 0) => SelF[2] <= i
 
 \* C05 : never more drilling than an evaluated feasible candidate at maximum height
+\* (also when the design came from a continue branch: "largest field at maximum height" is only reached when every evaluated
+\*  field failed, "smallest field at minimum height" has the least drilling of all)
 NoLessDrillingEvaluated ==
-  (Done /\ IsSel /\ ~escape /\ Mode # "RW" /\ NoTies) =>
+  (Done /\ IsSel /\ Mode # "RW" /\ NoTies) =>
      \A ev \in EvalsAtMax : ev.v < 0 => Cnt(SelF) * FinalH <= ev.n * Hmax
 
 \* the same restricted to the list the selection came from (what a per-list bisection can promise)
